@@ -34,6 +34,7 @@ def _worker(spec):
     try:
         mod = importlib.import_module(spec['module'])
         fn = getattr(mod, spec['func'])
+        os.environ['VERIF_OB_NAME'] = '%s|%s' % (spec.get('kind'), spec['name'])
         res = fn(spec)
     except BaseException as e:  # noqa
         res = dict(status='error', detail='%s: %s\n%s' % (type(e).__name__, e, traceback.format_exc()[-1500:]))
